@@ -19,12 +19,16 @@
 using namespace c19;
 
 namespace {
-
 const size_t npos = std::string::npos;
 typedef tlx::string_view SV;
+} // namespace
+
+// shared with C19_icase.cpp (declared in C19_common.hpp)
+namespace c19 {
 
 // letters of both cases, the ASCII neighbours of the letter ranges, whitespace, NUL, bytes >= 0x80 (0xC1 / 0xE1 are
 // 'A' / 'a' + 0x80: a locale-dependent or sign-confused case conversion would touch them)
+extern const std::string ALPHA;
 const std::string ALPHA = std::string("aAbBzZ@[`{ \t\n\r") + '\0' + (char)0x80 + (char)0xC1 + (char)0xE1 + (char)0xFF;
 
 // ---- reference definitions ---------------------------------------------------------------------------------
@@ -153,7 +157,7 @@ std::string gen_related_long(pbt::Source& src, const std::string& hay, const std
 }
 
 //! a second string related to the first (so that matches, prefixes, near-misses are common)
-std::string gen_related(pbt::Source& src, const std::string& hay, const std::string& alphabet, size_t maxlen, size_t cap = 5000) {
+std::string gen_related(pbt::Source& src, const std::string& hay, const std::string& alphabet, size_t maxlen, size_t cap) {
     if (long_mode()) return gen_related_long(src, hay, alphabet, maxlen, cap);
     switch (src.range(0, 6)) {
     case 1: // substring
@@ -180,6 +184,10 @@ std::string gen_related(pbt::Source& src, const std::string& hay, const std::str
     default: return gen_over(src, alphabet, maxlen);
     }
 }
+
+} // namespace c19
+
+namespace {
 
 #define HCHECK(cond, lab, msg) PBT_CHECK(cond, lab, msg)
 
